@@ -10,6 +10,7 @@
   `Inv`; nothing is bounded.
 -/
 import Cel.Lemmas.Runtime
+import Cel.Lemmas.RuntimeLimit
 import Cel.Bridge.Runtime
 namespace Cel.Props.C05
 open Cel Cel.Runtime
@@ -159,6 +160,39 @@ theorem compiled_program_constructible (cfg : Config) (hc : cfg.clone = .deep) (
     | error x => simp [setupExc]
     | ok y => simp
 
+/-! ## the process-wide recursion limit (interpreter state outside the heap)
+
+Which nesting depths of an expression can be built and evaluated at all is decided by Python's recursion limit, which
+`Environment.__init__` sets.  It is part of "which other environments … were created earlier in the process". -/
+
+/-- Under the unconditional policy the limit is `n` after ANY history that creates an environment, whatever it was before. -/
+theorem limit_after_any_history (n l : Nat) (ops : List Op) (h : hasEnvOp ops = true) : limitRun (.always n) l ops = n :=
+  limitRun_always_env n ops l h
+
+/-- **The recursion limit at every evaluation is history independent.**  After ANY history from a fresh process
+(initial limit `l`), when ANY program `p` of the resulting state is evaluated the limit is what it is when the same
+evaluation is performed alone in a fresh process (initial limit `l'`, `aloneOps p` = the operations `ideal` performs):
+earlier environments of either runner class, programs and evaluations have no influence. -/
+theorem limit_history_independent (cfg : Config) (n l l' : Nat) (ops : List Op) (i : Nat) (p : Prog)
+    (hi : (run cfg World.init ops).progs[i]? = some p) :
+    limitRun (.always n) l ops = limitRun (.always n) l' (aloneOps p) := by
+  rw [limitRun_always_env n ops l (prog_needs_env cfg ops i p hi)]
+  rfl
+
+/-- … for the policy of the CURRENT source (`Environment.__init__` as it is now). -/
+theorem limit_history_independent_current (cfg : Config) (l l' : Nat) (ops : List Op) (i : Nat) (p : Prog)
+    (hi : (run cfg World.init ops).progs[i]? = some p) :
+    limitRun Cel.Gen.Runtime.limitPolicy l ops = limitRun Cel.Gen.Runtime.limitPolicy l' (aloneOps p) := by
+  obtain ⟨n, hn⟩ := Cel.Bridge.Runtime.limit_is_unconditional
+  rw [hn]
+  exact limit_history_independent cfg n l l' ops i p hi
+
+/-- Counterexample (why the policy must be unconditional): if only interpreted environments raise the limit, a compiled
+program is built under limit 1000 alone and under 2500 after an unrelated interpreted environment was created. -/
+theorem limit_conditional_depends_on_history :
+    limitRun (.onlyKind .I 2500) 1000 (aloneOps ⟨.C, [], none, .lit 1, (0, [])⟩) = 1000 ∧
+    limitRun (.onlyKind .I 2500) 1000 (.mkEnv .I [] none :: aloneOps ⟨.C, [], none, .lit 1, (0, [])⟩) = 2500 := by decide
+
 /-! ## non-vacuity and the two defects this property found (regressions) -/
 
 /-- D3 witness history: compiled program over `a.b + x`, evaluated with `a.b` bound, then without -/
@@ -195,5 +229,9 @@ example :
       .evaluate 0 [("p.a", .int 1), ("a.b", .int 2)], .evaluate 0 [("a.b", .int 2)], .evaluate 0 []]
     (run Config.fixed World.init ops).progs[0]?.isSome = true ∧
       trace Config.fixed World.init ops = [.done, .done, .done, .done, .err, .err, .err] := by decide
+
+/-- the hypothesis of `limit_history_independent` is satisfiable, and the limit trace of a mixed history is constant -/
+example : (run Config.fixed World.init d2History).progs[0]?.isSome = true ∧
+    limitTrace (.always 2500) 1000 d2History = [2500, 2500, 2500, 2500, 2500] := by decide
 
 end Cel.Props.C05
